@@ -758,6 +758,9 @@ struct Provider {
     zone: Zone,
     diffs: Vec<Arc<InMemoryZoneDiff>>,
     compat: bool,
+    /// hand the differences on file also to a client whose serial is not the start of any of them (the middleware then
+    /// has to see for itself that the client is current or ahead)
+    always_offer_diffs: bool,
 }
 
 impl<RM> XfrDataProvider<RM> for Provider {
@@ -770,6 +773,7 @@ impl<RM> XfrDataProvider<RM> for Provider {
             if q.qname() == self.zone.apex_name() && q.qclass() == self.zone.class() {
                 let diffs = match diff_from.and_then(|s| self.diffs.iter().position(|d| d.start_serial == s)) {
                     Some(p) => self.diffs[p..].to_vec(),
+                    None if self.always_offer_diffs && diff_from.is_some() => self.diffs.clone(),
                     None => vec![],
                 };
                 Ok(XfrData::new(self.zone.clone(), diffs, self.compat))
@@ -790,6 +794,38 @@ impl Service<Vec<u8>, ()> for NoNext {
     fn call(&self, _request: Request<Vec<u8>, ()>) -> Self::Future {
         ready(once(ready(Err(ServiceError::Refused))))
     }
+}
+
+
+/// For C17: what the XFR middleware does with an IXFR query from a client at `client` when the
+/// zone went from serial `old` to serial `new` and the difference old -> new is on file: "single-soa"
+/// (the client is told it is current), "diffs" (an incremental transfer), "axfr" (the whole zone).
+pub(crate) fn ixfr_decision(rt: &tokio::runtime::Runtime, old: u32, new: u32, client: u32) -> Result<&'static str, String> {
+    use domain::zonetree::InMemoryZoneDiffBuilder;
+    let apex: &[u8] = b"\x07example\x00";
+    let soa = |serial: u32| shared_rrset(&RRset { name: apex.to_vec(), rtype: T_SOA, ttl: 3600, rdatas: vec![rd_soa(apex, serial)] });
+    let mut b = ZoneBuilder::new(sname(apex), Class::IN);
+    b.insert_rrset(&sname(apex), soa(new)).map_err(|_| "zone".to_string())?;
+    b.insert_rrset(&sname(apex), shared_rrset(&RRset { name: apex.to_vec(), rtype: 2, ttl: 3600, rdatas: vec![b"\x02ns\x07example\x00".to_vec()] })).map_err(|_| "zone".to_string())?;
+    let zone = b.build();
+    let mut db = InMemoryZoneDiffBuilder::new();
+    db.remove(sname(apex), Rtype::SOA, soa(old));
+    db.add(sname(apex), Rtype::SOA, soa(new));
+    let diff = db.build().map_err(|e| format!("diff {} -> {} refused: {:?}", old, new, e))?;
+    // differences are offered to a client at or ahead of the zone as well: whether it is, the middleware decides
+    let offer = client == new || (client.wrapping_sub(new) as i32) > 0;
+    let prov = Provider { zone, diffs: vec![Arc::new(diff)], compat: false, always_offer_diffs: offer };
+    let query = mk_query(apex, T_IXFR, 4711, client);
+    let msgs = rt.block_on(serve(prov, query, None, 0))?;
+    let Some(recs) = flatten(&msgs) else { return Err("response unreadable".into()) };
+    let soas: Vec<u32> = recs.iter().filter(|r| r.rtype == T_SOA).map(|r| serial_of_rdata(&r.rdata)).collect();
+    Ok(if recs.len() == 1 && soas.len() == 1 {
+        "single-soa"
+    } else if recs.len() >= 2 && recs[1].rtype == T_SOA && recs.len() > 2 {
+        "diffs"
+    } else {
+        "axfr"
+    })
 }
 
 /// Run the real XFR middleware on a query; the responses as wire messages.
@@ -1312,7 +1348,7 @@ fn one_case(c: &mut Ctx, rt: &tokio::runtime::Runtime, fam: &str, idx: u64) {
         let compat = rng.chance(1, 4);
         let udp = if kind == "ixfr" && rng.chance(1, 5) { Some(*rng.pick(&[512u16, 1232, 4096])) } else { None };
         let reserve = if udp.is_none() && rng.chance(1, 3) { 65535 - rng.range(200, 900) as u16 } else if udp.is_some() && rng.bool() { rng.range(0, 300) as u16 } else { 0 };
-        let prov = Provider { zone: sender.clone(), diffs: diffs.clone(), compat };
+        let prov = Provider { zone: sender.clone(), diffs: diffs.clone(), compat, always_offer_diffs: false };
         #[cfg(feature = "crypto")]
         let tsig_key = if udp.is_none() && rng.chance(1, 3) { Some(crate::p11::gen_key(&mut rng)) } else { None };
         #[cfg(feature = "crypto")]
